@@ -212,7 +212,13 @@ func (p *vkPeer) handle(m wire.Message) {
 				continue
 			}
 			if n, ok := p.tree.byHash[iv.Hash]; ok {
-				p.send(p.tree.blocks[n])
+				// every delivery is a freshly parsed message (its transaction cursor starts at zero)
+				orig := p.tree.blocks[n]
+				fresh := &wire.MsgBlock{Header: orig.Header}
+				for _, tx := range orig.Transactions {
+					fresh.AddTransaction(tx)
+				}
+				p.send(fresh)
 			}
 		}
 	case *wire.MsgSendHeaders:
